@@ -403,6 +403,10 @@ def run_impl(sc, spec, env=None, timeout=60, crash=None, yield_seed=None, binary
         res["log_tail"] = open(os.path.join(sc.work, "wfrun.log"), errors="replace").read()[-700:]
     except OSError:
         res["log_tail"] = ""
+    if not err.strip() and p.returncode not in (0, None):
+        # scipipe reports errors through its loggers (stdout / log file), not on stderr
+        msg = "\n".join(l for l in out.splitlines() if "ERROR" in l or "panic" in l or "fatal" in l)
+        res["stderr"] = (msg or res["log_tail"])[-500:]
     res["fs"] = snapshot_dir(sc.work)
     # what lies beside the working directory (parent-relative and absolute outputs), keyed relative to work/
     outside = {}
@@ -506,7 +510,8 @@ def gen_workflow(rng, maxlen=4, allow_params=True, nproc=None, bufsize=None, mul
         paths = []
         for j in range(L):
             p = (rng.choice(["", "data/"]) if subdirs else "") + "s%d_%d.txt" % (i, j)
-            sp.files[p] = "src%d_%d\n" % (i, j) * rng.randint(1, 2)
+            # an eighth of the source files is empty: `cat` tasks fed by them have (legitimately) empty outputs
+            sp.files[p] = "src%d_%d\n" % (i, j) * rng.choice([1, 2, 1, 2, 1, 2, 1, 0])
             paths.append(p)
         fileups.append((sp.src("src%d" % i, paths), "out"))
     if allow_params and rng.random() < 0.5:
